@@ -108,6 +108,17 @@ var c18Templates = []string{
 	`(let [a N c (list 1 2)] (quasiquote [(unquote a) (splice-unquote c)]))`,
 	`(let [a N] (quasiquote (pair [(unquote a) (unquote a)] {:k [(unquote a)]})))`,
 	`(do (defmacro with-tmp (fn [v] (quasiquote (let [tmp (unquote v)] (list tmp tmp))))) (with-tmp (+ N 1)))`,
+	// the host cancels the evaluation inside a try body; the handler's value is not a call
+	`(try (host-cancel!) (catch e :late))`,
+	`(try (host-cancel!) (catch e e))`,
+	`((fn [a] (try (do (trace! :in-body) (host-cancel!)) (catch e a))) N)`,
+	`(do (trace! 1) (try (host-cancel!) (catch e N) (finally (trace! :fin))))`,
+	`(let [x N] (try (host-cancel!) (catch e x)))`,
+	// a macro whose expansion is itself the failing call; nothing catches the error
+	`(do (defmacro fail-with (fn [msg] (list 'throw msg))) (fail-with N))`,
+	`(do (defmacro m-div (fn [a b] (list '/ a b))) (trace! :before) (m-div N 0))`,
+	`(do (defmacro m-nth (fn [v i] (quasiquote (nth (unquote v) (unquote i))))) (list (m-nth [1 2 3] 1) (m-nth [1 2] N)))`,
+	`(do (defmacro m-call (fn [f] (list f))) (m-call undefined-fn-N))`,
 	// forms with more than ten items
 	`(str 1 2 3 4 5 6 7 8 9 10 N 12)`,
 	`(do (trace! 1) (trace! 2) (trace! 3) (trace! 4) (trace! 5) (trace! 6) (trace! 7) (trace! 8) (trace! 9) (trace! 10) (trace! 11) N)`,
@@ -211,6 +222,12 @@ func c18OnceWith(ast func() types.MalType, plan c03Plan, cmd func(i int) debugge
 	runCtx, runCancel := context.WithTimeout(context.Background(), time.Hour)
 	defer runCancel()
 	spy.budget, spy.cancel = 300000, runCancel
+	rt.hostCancel = runCancel
+	// (host-cancel!): the embedding program cancels the whole evaluation while this builtin runs
+	e.Set(types.Symbol{Val: "host-cancel!"}, types.Func{Fn: func(ctx context.Context, a []types.MalType) (types.MalType, error) {
+		runCancel()
+		return nil, errBudget
+	}})
 	simhook.Install(spy)
 	if shipped {
 		inner := shippedDebugger(e)
@@ -312,7 +329,13 @@ func (c18) Run(tp *Tape, opt RunOpt) *RunOut {
 		src = "(let [r " + root.render() + "] (list r e))"
 		c18BodyOnly = rawPanicSites(root, true)
 		if g.sites > 0 && tp.Chance(LaneWork, 2, 3) {
-			plan[1+tp.Draw(LaneWork, g.sites)] = c03Faults[1+tp.Draw(LaneWork, len(c03Faults)-1)]
+			site := 1 + tp.Draw(LaneWork, g.sites)
+			plan[site] = c03Faults[1+tp.Draw(LaneWork, len(c03Faults)-1)]
+			if tp.Chance(LaneWork, 1, 6) {
+				// the host cancels the whole evaluation while a builtin runs: what follows (handlers, finally bodies,
+				// the rest of the program) runs under an ended context, with and without a stepper alike
+				plan[site] = "host-cancel"
+			}
 		}
 		out.Stats["programs:try-nest"]++
 	} else {
